@@ -76,6 +76,7 @@ type Runner struct {
 	ctxs        []*ctxRec
 	acts        sync.WaitGroup
 	quit        chan struct{}
+	valSeq      atomic.Int64
 	t           *testing.T
 	yieldClient *Client
 	ctxSeq      atomic.Int64
@@ -483,6 +484,7 @@ func (r *Runner) doStop(i *inst, v *StopVariant, teardown bool) {
 
 func (r *Runner) doValidate(i *inst, a *Action) {
 	ctx := context.Background()
+	var valID int64
 	var cancel context.CancelFunc = func() {}
 	switch a.Val {
 	case "cancelled":
@@ -490,6 +492,22 @@ func (r *Runner) doValidate(i *inst, a *Action) {
 		cancel()
 	case "deadline":
 		ctx, cancel = context.WithTimeout(ctx, a.D)
+	case "cancelmid", "deadlinecancel":
+		// the application gives up on the call after a.D: a plain cancellable context, or one
+		// that also carries a deadline far in the future (a request context with a budget)
+		if a.Val == "deadlinecancel" {
+			ctx, cancel = context.WithTimeout(ctx, 10*time.Minute)
+		} else {
+			ctx, cancel = context.WithCancel(ctx)
+		}
+		id := r.valSeq.Add(1)
+		cc := cancel
+		go func() {
+			time.Sleep(a.D)
+			r.add(Event{Kind: "validate.ctx.end", Inst: i.spec.Name, N: id})
+			cc()
+		}()
+		valID = id
 	}
 	defer cancel()
 	api := "ValidateToken"
@@ -498,7 +516,7 @@ func (r *Runner) doValidate(i *inst, a *Action) {
 	}
 	pre := i.el.Token()
 	preL := i.el.IsLeader()
-	r.add(Event{Kind: "api.call", Inst: i.spec.Name, API: api, S: a.Val, Token: pre, Flag: preL})
+	r.add(Event{Kind: "api.call", Inst: i.spec.Name, API: api, S: a.Val, Token: pre, Flag: preL, N: valID})
 	var ok bool
 	var err error
 	if a.OrDemote {
